@@ -11,7 +11,7 @@ from common import *
 import model, findings as F
 from props import base
 
-PROPS_MODULES = ["ShexerModel.Props.C07", "ShexerModel.Props.GenStrCorners", "ShexerModel.Props.GenStrLiteral", "ShexerModel.Props.GenStrUnprefix", "ShexerModel.Props.GenStrTtlScan", "ShexerModel.Props.GenStrTune2", "ShexerModel.Props.GenStrTtlTok"]
+PROPS_MODULES = ["ShexerModel.Props.C07", "ShexerModel.Props.GenStrCorners", "ShexerModel.Props.GenStrLiteral", "ShexerModel.Props.GenStrUnprefix", "ShexerModel.Props.GenStrTtlScan", "ShexerModel.Props.GenStrTune2", "ShexerModel.Props.GenStrTtlTok", "ShexerModel.Props.GenTtlReader"]
 DEPS = ["S.remove_corners", "S.decide_literal_type"] + ["S." + x for x in ('ttl_remove_comments_if_needed', 'ttl_find_next_blank', 'ttl_count_prior_backslashes', 'ttl_find_next_unescaped_quotes', 'ttl_find_next_quoted_literal_ending', 'ttl_expand_prefixed_datatype_if_needed', 'ttl_parse_cornered_element', 'ttl_next_line_token', 'ttl_clean_line', 'ttl_is_num_literal', 'ttl_parse_elem', 'parse_literal', 'parse_unquoted_literal', 'tune_subj', 'tune_prop', 'tune_token')]
 replay = base.replay
 LANG_STRING = 'http://www.w3.org/1999/02/22-rdf-syntax-ns#langString'
